@@ -424,7 +424,7 @@ def run(ctx):
         log("BUILD FAILED (harness scansim):\n" + out[-3000:])
         raise SystemExit(2)
     vlib.regen_consts("Scan", "scansim")
-    proofs_ok, info = ctx.check_proofs(make_targets=["Scan/Proofs.vo", "Properties/C13.vo"],
+    proofs_ok, info = ctx.check_proofs(make_targets=["Scan/Proofs.vo", "Scan/ProofsFullCodec.vo", "Properties/C13.vo"],
                                        gate_paths=["Scan", "Common", "Properties/C13"])
     mok, mout, _ = vlib.model_build("Scan")
     if not mok:
